@@ -340,7 +340,7 @@ func histObs(b *Built, sc *Scenario, args []string) string {
 	sb.WriteString("\n")
 	var seen []*Opt
 	for op, n := range sc.Exp.Seen {
-		if n > 0 && !op.T.IsFunc() && op.Val.IsValid() {
+		if n > 0 && !op.T.IsFunc() && op.Val.IsValid() && !sc.Exp.ValueUnspec[op] {
 			seen = append(seen, op)
 		}
 	}
